@@ -77,6 +77,8 @@ def test_menu():
         ('dens', ('qartod', 'density_inversion_test', dict(suspect_threshold=Fr(-1), fail_threshold=Fr(-2)), ('inp', 'zinp'))),
         ('speed', ('argo', 'speed_test', dict(suspect_threshold=Fr(1), fail_threshold=Fr(2)), ('lon', 'lat', 'tinp'))),
         ('valid', ('axds', 'valid_range_test', dict(valid_span=[Fr(1), Fr(5)]), ('inp',))),
+        # every configured parameter reaches the test, the switches too (a value on either bound tells)
+        ('valid_incl', ('axds', 'valid_range_test', dict(valid_span=[Fr(1), Fr(5)], start_inclusive=False, end_inclusive=True), ('inp',))),
         ('press', ('argo', 'pressure_increasing_test', dict(), ('inp',))),
     ])
 
@@ -114,7 +116,7 @@ def expected_direct(runner, table, contexts):
     for ci, c in enumerate(contexts):
         rows = table.rows_in(c['window'])
         for sid, keys in c['tests'].items():
-            if sid not in table.streams and sid not in table.extra_vars:
+            if sid not in table.streams and sid not in table.extra_vars and not (sid in table.axes and sid != 'time' and getattr(table, 'axis_streams', False)):
                 continue
             detached = sid in table.extra_vars
             if detached:
